@@ -14,6 +14,8 @@ import (
 	"time"
 
 	"golang.org/x/tools/go/ssa"
+
+	"gosym/wq"
 )
 
 type PinFile struct {
@@ -27,6 +29,7 @@ type Job struct {
 	Fn        string   `json:"fn"`
 	ShardI    int      `json:"shard_i"`
 	ShardN    int      `json:"shard_n"`
+	ShardDepth int     `json:"shard_depth"`
 	MaxPaths  int      `json:"max_paths"`
 	QTimeout  int      `json:"qtimeout_ms"`
 	Pin       *PinFile `json:"pin,omitempty"`
@@ -67,13 +70,13 @@ type Result struct {
 }
 
 // RunJobJSON is the copy-independent entry point (JSON in, JSON out).
-func RunJobJSON(prog *ssa.Program, fn *ssa.Function, jobJSON []byte) []byte {
+func RunJobJSON(prog *ssa.Program, fn *ssa.Function, jobJSON []byte, q *wq.Queue) []byte {
 	var job Job
 	if err := json.Unmarshal(jobJSON, &job); err != nil {
 		b, _ := json.Marshal(Result{Error: "bad job: " + err.Error()})
 		return b
 	}
-	res := RunJob(prog, fn, job)
+	res := RunJob(prog, fn, job, q)
 	b, err := json.Marshal(res)
 	if err != nil {
 		b, _ = json.Marshal(Result{Job: job, Error: "marshal: " + err.Error()})
@@ -81,7 +84,7 @@ func RunJobJSON(prog *ssa.Program, fn *ssa.Function, jobJSON []byte) []byte {
 	return b
 }
 
-func RunJob(prog *ssa.Program, fn *ssa.Function, job Job) Result {
+func RunJob(prog *ssa.Program, fn *ssa.Function, job Job, q *wq.Queue) Result {
 	res := Result{Job: job}
 	solver, err := NewSolver("z3-new", "-in")
 	if err != nil {
@@ -97,6 +100,7 @@ func RunJob(prog *ssa.Program, fn *ssa.Function, job Job) Result {
 	defer solver2.Close()
 	x := NewExplorer(solver, solver2)
 	x.Verbose = job.Verbose
+	x.Q = q
 	x.Thorough = job.Thorough
 	x.KnownFor = job.KnownFor
 	if job.MaxPaths > 0 {
@@ -107,6 +111,9 @@ func RunJob(prog *ssa.Program, fn *ssa.Function, job Job) Result {
 	}
 	if job.ShardN > 1 {
 		x.ShardI, x.ShardN = job.ShardI, job.ShardN
+	}
+	if job.ShardDepth > 0 {
+		x.ShardDepth = job.ShardDepth
 	}
 	if job.DeadlineS > 0 {
 		x.Deadline = time.Now().Add(time.Duration(job.DeadlineS) * time.Second)
@@ -162,6 +169,9 @@ func RunJob(prog *ssa.Program, fn *ssa.Function, job Job) Result {
 	res.Witnesses = x.Witnesses
 	res.Funcs = x.TopFuncs(60)
 	res.Stubs = x.StubHits
+	for k, v := range solver2.Portfolio {
+		res.Stubs["solver-portfolio:"+k] += v
+	}
 	for k := range x.Replaced {
 		res.Replaced = append(res.Replaced, k)
 	}
